@@ -70,7 +70,8 @@ Step ==
             \* a guard was dropped: it skips exactly size() of the message the reference decoder sees
             /\ LET r == Validate(T, Occupied, 0) IN r.ok /\ e.n = Size(r.val, T)
             /\ e.n <= we - ws
-            /\ IF ws + e.n = we THEN e.ws = 0 /\ e.we = 0 /\ ws' = 0 /\ we' = 0 /\ buf' = <<>>
+            \* (an emptied window may be moved back to the start of the buffer or left where it is)
+            /\ IF ws + e.n = we /\ e.ws = 0 /\ e.we = 0 THEN ws' = 0 /\ we' = 0 /\ buf' = <<>>
                ELSE e.ws = ws + e.n /\ e.we = we /\ ws' = ws + e.n /\ we' = we /\ buf' = buf
             /\ UNCHANGED <<rd, pend>>
        [] ev.t = "hook" /\ e.ev = "clear" -> ws' = 0 /\ we' = 0 /\ buf' = <<>> /\ UNCHANGED <<rd, pend>>
